@@ -296,7 +296,8 @@ func ntsTrailer(rng *rand.Rand, hdr []byte, g *dgram, sess *session, key []byte,
 				L = 4 + n
 				val = rndBytes(rng, n)
 			case "big":
-				n := 972 + 4*rng.Intn(8)
+				// echoed into a reply of maxPacketLen bytes: 48 + 4 + n leaves no room for the next header
+				n := maxPacketLen - 52 + 4*rng.Intn(8)
 				L = 4 + n
 				val = rndBytes(rng, n)
 			case "beyond":
